@@ -230,10 +230,9 @@ impl StringDecoder for Unreal2StringDecoder {
 
         // If UCS2 the first byte is the masked length of the string
         let result = if ucs2 {
-            let string_data = &data[start .. start + length];
-            if string_data.len() != length {
-                return Err(PacketBad.context("Not enough data in buffer to read string"));
-            }
+            let string_data = data
+                .get(start .. start + length)
+                .ok_or_else(|| PacketBad.context("Not enough data in buffer to read string"))?;
 
             // When node decodes UCS2 it uses the UFT16LE encoding.
             // https://github.com/nodejs/node/blob/2aaa21f9f684484edb54be30589c4af0b923cdef/lib/buffer.js#L637-L645
@@ -258,8 +257,8 @@ impl StringDecoder for Unreal2StringDecoder {
 
             length = position + 1;
 
-            // Decode as latin1
-            let (result, _, invalid_sequences) = WINDOWS_1252.decode(&data[0 .. position]);
+            // Decode as latin1 (the first byte is the length, it is not part of the string)
+            let (result, _, invalid_sequences) = WINDOWS_1252.decode(&data[position.min(1) .. position]);
 
             if invalid_sequences {
                 return Err(PacketBad.context("latin1 string contained invalid character(s)"));
